@@ -8,7 +8,16 @@
 // registry.Repository and a scripted notation.Verifier (mockrepo.go); the skip
 // path and a second pass with real signatures use the real verifier.
 // Oracle: the reference loop of DESIGN.md appendix A.3 (func reference below),
-// written from the statement, never from notation.go.
+// written from the statement, never from notation.go. VIOLATIONS are raised only
+// for what the statement fixes literally (func stated/judge): success iff a
+// signature among the first N verifies with everything before it fetchable; on
+// success the resolved descriptor (media type, digest, size), exactly one outcome
+// and that of such a signature, nothing after it fetched or evaluated; never more
+// than N distinct signatures fetched/evaluated; the five error conditions; no
+// repository call under skip; signatures listed for the resolved digest. All
+// further predictions of A.3 (exact call logs, first-of-several winner, calls made
+// before an argument error, collaborator arguments, result under skip) are
+// compared and RECORDED as outcome classes "recorded:<key>" (func a3Deviations).
 //
 // Bounds (each pass x 9 limits x 22 references, pagings = all compositions
 // plus one empty page at every position):
@@ -31,7 +40,10 @@ import (
 	"crypto/sha256"
 	"crypto/sha512"
 	"fmt"
+	"math/bits"
+	"sort"
 	"strings"
+	"sync"
 	"sync/atomic"
 	"time"
 
@@ -536,9 +548,168 @@ func runCase(fx *realFixtures, c *caseT) (o *obs) {
 
 // ---------------- judging ----------------
 
-func judge(c *caseT, e *expectation, o *obs, viol func(key, detail string)) {
+// demand is what the STATEMENT of C10, read literally, fixes for a case. Everything else the
+// reference loop of A.3 predicts (exact call logs, which of several good signatures wins, the order
+// and number of repository calls before an argument error, the arguments of collaborator calls, the
+// result under skip) is compared too, but only RECORDED (a3Deviations -> outcome classes "recorded:<key>").
+const (
+	dEither = iota
+	dMustFail
+	dMustSucceed
+)
+
+type demand struct {
+	result      int
+	label       string
+	loop        bool  // the listing decides the result
+	qual        uint8 // bit i: signature i verifies, is among the first N and everything before it can be fetched
+	noRepoCalls bool  // "when the applicable level is skip nothing is resolved, listed or fetched at all"
+}
+
+func stated(c *caseT, e *expectation) demand {
+	var d demand
+	digestForm := c.ref == rDigest || c.ref.isMismatch() || c.ref.isMalformed()
+	if c.pass == pSkip && digestForm {
+		d.noRepoCalls = true
+	}
+	fail := func(label string) demand { d.result, d.label = dMustFail, label; return d }
+	switch {
+	case c.n <= 0:
+		return fail("nonpositive-limit")
+	case c.pass != pScripted && c.ref.isTag():
+		return d // SkipVerify's parser limitation: recorded
+	case c.ref == rNone:
+		return fail("no-tag-or-digest")
+	case c.ref == rGarbage:
+		return fail("garbage") // it has neither tag nor digest
+	case c.pass == pSkip:
+		return d // the statement does not say what Verify returns under skip
+	case c.ref.isMismatch() || c.ref == rTruncated || c.ref == rTooLong:
+		return fail("digest-mismatch:" + refNames[c.ref] + "/repository-resolves-" + c.w().name)
+	case c.ref == rUpperHex:
+		return d // the resolved digest in another spelling: whether it "differs" depends on the reading
+	}
+	d.loop = true
+	nilAmongFirstN := false
+	fetchable := true
+	for i, s := range c.kinds {
+		if i >= c.n {
+			break
+		}
+		switch s {
+		case kUnfetchable:
+			fetchable = false
+		case kNilOutcome:
+			nilAmongFirstN = true // outside the statement's alphabet: aborting and going on are both tolerated
+		case kValid:
+			if fetchable {
+				d.qual |= 1 << uint(i)
+			}
+		}
+	}
+	switch {
+	case d.qual == 0:
+		d.result, d.label = dMustFail, classLabel[e.class]
+	case !nilAmongFirstN:
+		d.result = dMustSucceed
+	}
+	return d
+}
+
+func judge(c *caseT, e *expectation, o *obs, viol func(key, detail string), rec func(key string)) {
 	if o.panicked != nil {
 		viol("result/panic", fmt.Sprintf("notation.Verify panicked: %v", o.panicked))
+		return
+	}
+	d := stated(c, e)
+	lg := o.log
+	ok := o.err == nil
+	res := c.w().resolved
+	switch {
+	case d.result == dMustFail && ok:
+		viol("result/accepted-instead-of-error:"+d.label, fmt.Sprintf("Verify succeeded (descriptor %s, %d outcomes); the statement says error: %s", o.desc.Digest, len(o.outs), d.label))
+	case d.result == dMustSucceed && !ok:
+		viol("result/error-instead-of-success", fmt.Sprintf("a signature among the first %d verifies and everything before it could be fetched (qualifying set %06b), yet Verify returned %v", c.n, d.qual, o.err))
+	}
+	if d.noRepoCalls && lg.anyRepositoryCall() {
+		viol("args/no-repository-call-expected:skip-policy", fmt.Sprintf("the applicable level is skip, yet the repository was called: resolve=%v list=%d pages=%d fetch=%d", lg.resolves, len(lg.lists), len(lg.pages), len(lg.fetches)))
+	}
+	// "never more than N" (N is the caller's attempt limit): distinct listed signatures fetched / evaluated
+	var fmask, vmask uint8
+	for _, f := range lg.fetches {
+		if f.Sig >= 0 {
+			fmask |= 1 << uint(f.Sig)
+		}
+	}
+	for _, v := range lg.verifies {
+		if v.Sig >= 0 {
+			vmask |= 1 << uint(v.Sig)
+		}
+	}
+	if c.n > 0 {
+		if n := bits.OnesCount8(fmask); n > c.n {
+			viol("loop/fetched-beyond-limit", fmt.Sprintf("%d distinct signatures fetched (set %06b), limit is %d", n, fmask, c.n))
+		}
+		if n := bits.OnesCount8(vmask); n > c.n {
+			viol("loop/verified-beyond-limit", fmt.Sprintf("%d distinct signatures evaluated (set %06b), limit is %d", n, vmask, c.n))
+		}
+	}
+	if d.loop {
+		for _, ld := range lg.lists {
+			if ld.Digest != res.Digest {
+				viol("args/list-descriptor", fmt.Sprintf("signatures listed for %s, the repository resolved %s", ld.Digest, res.Digest))
+				break
+			}
+		}
+	}
+	if d.loop && ok {
+		// "it then returns the resolved artifact descriptor and exactly that signature's outcome,
+		// having fetched and evaluated no signature after it"
+		if o.desc.MediaType != res.MediaType || o.desc.Digest != res.Digest || o.desc.Size != res.Size {
+			why := "other"
+			if descEq(o.desc, ocispec.Descriptor{}) {
+				why = "zero"
+			}
+			viol("result/wrong-descriptor:"+why, fmt.Sprintf("returned descriptor %+v, the repository resolved %+v", o.desc, res))
+		} else if !descEq(o.desc, res) {
+			rec("result/descriptor-fields-beyond-mediatype-digest-size-differ")
+		}
+		w := -1
+		switch {
+		case len(o.outs) != 1:
+			viol("result/wrong-outcomes:count", fmt.Sprintf("%d outcomes returned, want exactly the one of the signature that verified", len(o.outs)))
+		case o.outs[0] == nil:
+			viol("result/wrong-outcomes:nil", "the one outcome returned is nil")
+		case o.outs[0].Error != nil:
+			viol("result/wrong-outcomes:failed-outcome", fmt.Sprintf("success reported with a failed outcome: %v", o.outs[0].Error))
+		default:
+			for i := range c.kinds {
+				if bytes.Equal(o.outs[0].RawSignature, o.blobs[i]) {
+					w = i
+					break
+				}
+			}
+			if w < 0 || d.qual&(1<<uint(w)) == 0 {
+				viol("result/wrong-outcomes:other-signature", fmt.Sprintf("the outcome returned belongs to signature #%d, which is not one that verifies among the first %d with everything before it fetchable (qualifying set %06b)", w, c.n, d.qual))
+				w = -1
+			} else if d.qual&(1<<uint(w)-1) != 0 {
+				rec("result/outcome-of-a-later-qualifying-signature")
+			}
+		}
+		if w >= 0 {
+			after := ^uint8(0) << uint(w+1)
+			if fmask&after != 0 || vmask&after != 0 {
+				viol("loop/continued-after-success", fmt.Sprintf("the outcome of signature #%d is returned, yet signatures after it were fetched (set %06b) or evaluated (set %06b)", w, fmask, vmask))
+			}
+		}
+	}
+	a3Deviations(c, e, o, func(key, _ string) { rec(key) })
+}
+
+// a3Deviations compares the observation with everything the reference loop of DESIGN.md A.3 predicts,
+// including what the statement does not fix. Its findings are evidence only (recorded:<key>).
+func a3Deviations(c *caseT, e *expectation, o *obs, viol func(key, detail string)) {
+	if o.panicked != nil {
 		return
 	}
 	lg := o.log
@@ -682,6 +853,17 @@ func blobMT(c *caseT, i int) string {
 }
 
 // ---------------- recorded (not judged) facts ----------------
+
+var (
+	recMu    sync.Mutex
+	recorded = map[string]int64{}
+)
+
+func recordKey(key string) {
+	recMu.Lock()
+	recorded[key]++
+	recMu.Unlock()
+}
 
 var (
 	classCount      [nPasses][nClasses]atomic.Int64
@@ -858,7 +1040,7 @@ func enumerate(r *hx.Run, fx *realFixtures, sp spaceT) {
 					calls += len(o.log.resolves) + len(o.log.lists) + len(o.log.fetches) + len(o.log.verifies)
 					judge(c, &e, o, func(key, detail string) {
 						r.Violation(key, c.String()+" :: "+detail, c.replay())
-					})
+					}, recordKey)
 					record(c, &e, o)
 					if len(o.log.fetches) > 0 {
 						loopEntered[ni] = true
@@ -900,10 +1082,13 @@ func hist(names []string, v []atomic.Int64) map[string]int64 {
 
 func main() {
 	r := hx.New("C10")
-	r.Rule = "every element of listing x paging x limit x reference kind is run once through notation.Verify per pass (scripted verifier; real verifier with a skip-level statement; real verifier with real signatures) and compared with the reference loop of DESIGN.md A.3; non-trivial = distinct (pass, listing, limit) triples in which at least one signature is fetched; states = listing x paging pairs; transitions = repository and verifier calls observed"
+	r.Rule = "every element of listing x paging x limit x reference kind is run once through notation.Verify per pass (scripted verifier; real verifier with a skip-level statement; real verifier with real signatures) and judged against the literal statement (reference loop of DESIGN.md A.3; its predictions beyond the statement are recorded only); non-trivial = distinct (pass, listing, limit) triples in which at least one signature is fetched; states = listing x paging pairs; transitions = repository and verifier calls observed"
 	r.Assumptions = []string{
 		"the mock repository resolves every reference (tag, matching digest, other digest) to the same descriptor and ends the paging at the first error of the callback, as the oras-backed repositories do",
-		"a verifier that returns (nil, err) breaks the Verifier contract; by DESIGN.md A.3 Verify must then fail (the statement's alphabet has valid/invalid/unfetchable only)",
+		"a verifier that returns (nil, err) is outside the statement's alphabet (valid/invalid/unfetchable): when such a signature is among the first N, aborting with an error and treating it as invalid are both tolerated",
+		"'never more than N' is enforced on failing runs too (N is the caller's attempt limit), counted in distinct listed signatures; repeated fetches of one signature are not counted",
+		"'the resolved artifact descriptor' is compared by media type, digest and size; 'that signature's outcome' is identified by RawSignature and may be that of any signature that verifies among the first N with everything before it fetchable",
+		"under skip only the absence of repository calls is judged; the matching digest in upper-case hex is recorded only",
 		"with the real verifier a tag reference is refused by SkipVerify's reference parser (documented TODO in trustpolicy): recorded, not judged",
 		"skip policy with a digest that the repository would not resolve: only the absence of repository calls is judged (the two error/skip clauses of the statement cannot both be demanded)",
 		"on failure the content of the returned outcomes slice and descriptor, and whether pages after the limit are requested, are recorded only",
@@ -933,6 +1118,9 @@ func main() {
 		judge(c, &e, o, func(key, detail string) {
 			n++
 			r.Violation(key, c.String()+" :: "+detail, c.replay())
+		}, func(key string) {
+			fmt.Println("replay: recorded (not a violation): differs from the A.3 reference loop in", key)
+			recordKey(key)
 		})
 		record(c, &e, o)
 		r.Outcome(passNames[c.pass] + "/" + classNames[e.class])
@@ -976,6 +1164,19 @@ func main() {
 			}
 		}
 	}
+	// deviations from the A.3 reference loop in things the statement does not fix: evidence only
+	recMu.Lock()
+	rkeys := make([]string, 0, len(recorded))
+	for k := range recorded {
+		rkeys = append(rkeys, k)
+	}
+	sort.Strings(rkeys)
+	for _, k := range rkeys {
+		for n := recorded[k]; n > 0; n-- {
+			r.Outcome("recorded:" + k)
+		}
+	}
+	recMu.Unlock()
 	r.Extra["limits"] = limits
 	r.Extra["reference_kinds"] = refNames
 	r.Extra["repository_resolves"] = worldNames
@@ -989,6 +1190,9 @@ func main() {
 	for p := 0; p < nPasses; p++ {
 		exp, ok := controls[p][0].Load(), controls[p][1].Load()
 		ctl[passNames[p]] = fmt.Sprintf("%d of %d expected successes succeeded", ok, exp)
+		if p == pSkip {
+			continue // the statement does not fix the result under skip: counted, never an infrastructure error
+		}
 		if (exp == 0 || ok == 0) && r.Violations() == 0 { // with violations reported the failed controls are the finding, not an infrastructure problem
 			r.Infra("vacuous run: pass %s: %d of %d positive controls (cases the reference loop accepts) succeeded", passNames[p], ok, exp)
 		}
